@@ -102,11 +102,11 @@ type Plan struct {
 	Closers  [][]CloseStep `json:"closers,omitempty"`
 	TailUs   int           `json:"tail_us,omitempty"`
 	DrainUs  int           `json:"drain_us,omitempty"` // before the cleanup Close: read Inbound until it stays silent this long
-	Ref      *RefGw        `json:"ref,omitempty"` // C05: reference gateway + lossy network for tunnelling traffic
+	Ref      *RefGw        `json:"ref,omitempty"`      // C05: reference gateway + lossy network for tunnelling traffic
 	// FailOut: indices (counting every frame the client hands to its socket after the connection is up,
 	// from 0) whose transmission fails with a socket error: the frame is not transmitted.
 	FailOut []int `json:"fail_out,omitempty"`
-	Group    bool          `json:"group,omitempty"`
+	Group   bool  `json:"group,omitempty"`
 }
 
 // ---------------------------------------------------------------------------------- trace
@@ -306,7 +306,7 @@ func describe(e *Ev, s knxnet.Service) {
 // Sim is one running case.
 type Sim struct {
 	Plan   *Plan
-	Bubble bool // virtual time: enforce the "no goroutine waits for a mutex while time must pass" discipline
+	Bubble bool          // virtual time: enforce the "no goroutine waits for a mutex while time must pass" discipline
 	Limit  time.Duration // bound for "must happen" waits of the cleanup phase
 	Tr     *Trace
 	Sock   *common.MemSock
